@@ -40,6 +40,10 @@ def run_one(params, with_dups, faults=False):
     sim = scen.Sim("c16-%d-%d" % (params["idx"], int(with_dups)), seed)
     k = sim.k
     k.keep_snaps = True
+    if params.get("latency"):
+        # a slow path: several of the client's queries are under way at any time, so most of them do not yet acknowledge the
+        # fragment the server has just sent (it re-sends it, counting its re-sends)
+        k.latency_us = params["latency"]
     srv = sim.server(tun="10.9.0.1/24", extra=["-c"] if params["check_ip_off"] else [])
     R = {"ok": False, "sim": sim}
     if not srv.alive():
@@ -128,7 +132,7 @@ def run_one(params, with_dups, faults=False):
                 d = drng.choice(pool)
         else:
             d = drng.choice(pool)
-        for _ in range(drng.randint(1, 5)):
+        for _ in range(drng.randint(3, 9) if params.get("storm") else drng.randint(1, 5)):
             out = d
             kind = []
             oid = struct.unpack_from(">H", d, 0)[0]
@@ -472,6 +476,11 @@ def run(ctx):
             # from one wrap earlier are still inside the 30-entry ping window
             plist[-1].update(many_down=True, ndown=rng.randint(12, 22), nticks=rng.randint(180, 260), frag=50,
                              lazy=rng.random() < 0.8, ndup=rng.randint(50, 90), nup=rng.randint(0, 2))
+        if i % 8 == 2:
+            # a slow path and a relay that repeats itself many times ("any number of times"): downloads of many fragments with
+            # two or three queries under way, 3-9 copies per re-delivery
+            plist[-1].update(storm=True, latency=rng.choice([30000, 60000]), step=40000, lazy=True, frag=rng.choice([20, 50]),
+                             ndown=rng.randint(4, 8), nticks=rng.randint(160, 240), ndup=rng.randint(40, 80), nup=rng.randint(0, 3))
         if i % 3 == 1:
             plist[-1]["bystander"] = "lazy" if i % 6 == 1 else "immediate"
             if i % 6 == 1:
